@@ -44,7 +44,8 @@ def handle (op : String) (j : Json) : R Json := do
     let p ← boolF j "program_exists"
     let jb ← boolF j "job_exists"
     let faults ← listF (fun x => do pFault (← asStr x)) j "faults"
-    let c := faults.foldl (exchange retryTable)
+    let jobFirst := match optF j "job_first" with | some (Json.bool true) => true | _ => false
+    let c := faults.foldl (if jobFirst then exchangeJobFirst retryTable else exchange retryTable)
       { server := { program := p, job := jb, jobsCreated := 0 }, state := .running .createProgramAndJob }
     let st := match c.state with
       | .running r => "running:" ++ reqName r | .done => "done" | .raisedStreamError => "StreamError" | .raisedFatal => "fatal"
